@@ -106,7 +106,7 @@ def observe(fn, args, ctx=None, timeout_s=2):
                 res = 'ok ' + show_val(v)
             finally:
                 signal.setitimer(signal.ITIMER_PROF, 0)      # the timer may still fire right here: caught below
-        except TimeoutError:
+        except (TimeoutError, SystemError):   # a timer signal that lands inside a C extension call surfaces as SystemError
             res = None
         except Unsupported as e:
             res = f'unsupported {e}'
@@ -127,6 +127,9 @@ def observe(fn, args, ctx=None, timeout_s=2):
     return res, post
 
 # ====================================================================== recipes
+class Decline(Exception):
+    """the recipe does not apply to this program (no such site / no callee): not an error of the strategy"""
+
 class Rcp:
     """a transformation recipe: fn -> Function (raises to decline)"""
     def __init__(self, go, strict=None, mono_ctx=None):
@@ -139,7 +142,10 @@ def _strategy(s, enum):
 def _where(fn, w, strat_fn, **kw):
     """None | int | ('site', j) | ('stmt', j) | ('body',) | ('tail',) -> what the strategy's `where` takes"""
     if w is None or isinstance(w, int): return w
-    if w[0] == 'site': return S.sites(strat_fn, fn, **kw)[w[1]]
+    if w[0] == 'site':
+        ss = S.sites(strat_fn, fn, **kw)
+        if w[1] >= len(ss): raise Decline(f'no site {w[1]}')
+        return ss[w[1]]
     n = len(fn.ast.body.stmts)
     if w[0] == 'stmt': return StmtCursor(fn.ast, FuncBody().stmt(w[1] % n))
     if w[0] == 'body': return BlockCursor(fn.ast, FuncBody(), range(0, n))
@@ -273,7 +279,7 @@ def _callees(fn):
 def _funcs(fn, sel):
     if sel is None: return None
     cs = _callees(fn)
-    if not cs: raise ValueError('no callees')
+    if not cs: raise Decline('no callees')
     if sel == 'first': return cs[:1]
     if sel == 'last': return cs[-1:]
     if sel == 'all': return cs
@@ -333,6 +339,27 @@ def r_Monomorphize(ctx_src):
     ctx = eval(ctx_src, {'fp': fp})
     return Rcp(lambda fn: fn.with_ast(Monomorphize.apply(fn.ast, ctx)), mono_ctx=ctx)
 
+def r_twice(r):
+    """apply the same strategy twice to the SAME input object and keep the second result (a strategy must not consume its input)"""
+    def go(fn):
+        try: r(fn)
+        except Decline: raise
+        return r(fn)
+    return Rcp(go, strict=r.strict, mono_ctx=r.mono_ctx)
+
+def r_module_spec(ctx_src, args=None):
+    """Module.add(f, ctx=C).specialized() judged as f(*args, ctx=C) versus the specialised public entry"""
+    ctx = eval(ctx_src, {'fp': fp})
+    def go(fn):
+        from fpy2.module import Module
+        m = Module('xgen')
+        m.add(fn, ctx=ctx)
+        sm = m.specialized()
+        pubs = sm.public()
+        if len(pubs) != 1: raise Decline('specialised module has no single public entry')
+        return pubs[0]
+    return Rcp(go, mono_ctx=ctx)
+
 def r_seq(*rs):
     def go(fn):
         for r in rs: fn = r(fn)
@@ -368,7 +395,7 @@ RECIPE_NS = {'simplify': r_simplify, 'single': r_single, 'constfold_shared': r_c
              'order': r_order, 'fixpoint': r_fixpoint, 'unroll_for': r_unroll_for, 'ForUnroll': r_ForUnroll, 'unroll_while': r_unroll_while,
              'WhileUnroll': r_WhileUnroll, 'split': r_split, 'SplitLoop': r_SplitLoop, 'elim_iter': r_elim_iter, 'fuse': r_fuse, 'inline': r_inline,
              'FuncInline': r_FuncInline, 'inline_each': r_inline_each, 'close': r_close, 'lift_context': r_lift_context, 'LiftContext': r_LiftContext,
-             'mono': r_mono, 'Monomorphize': r_Monomorphize, 'seq': r_seq, 'repeat': r_repeat, 'fwd': r_fwd}
+             'mono': r_mono, 'Monomorphize': r_Monomorphize, 'twice': r_twice, 'module_spec': r_module_spec, 'seq': r_seq, 'repeat': r_repeat, 'fwd': r_fwd}
 
 def make_recipe(src: str) -> Rcp:
     return eval(src, dict(RECIPE_NS))
@@ -473,29 +500,55 @@ def exportable(fn, seen=None) -> bool:
 # ====================================================================== worker
 _W = {'tmp': None, 'corpus': {}}
 
-def _load_prog(prog):
+CRASHES = (AssertionError, KeyError, AttributeError, NameError, ZeroDivisionError, RecursionError, StopIteration, UnboundLocalError)
+
+def snapshot(fn):
+    """(function, name, text) of the program under test and of every FPy function it reaches"""
+    from fpy2.function import Function
+    out, seen, todo = [], set(), [fn]
+    while todo:
+        f = todo.pop()
+        if id(f.ast) in seen: continue
+        seen.add(id(f.ast)); out.append((f, f.ast.name, describe(f)))
+        try:
+            for _, e in T.walk_exprs(f.ast):
+                if isinstance(e, A.Call) and isinstance(e.fn, Function): todo.append(e.fn)
+        except Exception:
+            pass
+    return out
+
+def _load_prog(prog, fresh=False):
     """-> (Function under test, source text shown in a replay)"""
     if prog['src'] is None:
         path = prog['corpus_file']
+        if fresh: _W['corpus'].pop(path, None)
         if path not in _W['corpus']:
-            _W['corpus'][path] = load_module(path, 'fpyverif_corpus_' + os.path.basename(path)[:-3] + f'_{os.getpid()}')
+            _W['n'] = _W.get('n', 0) + 1
+            _W['corpus'][path] = load_module(path, 'fpyverif_corpus_' + os.path.basename(path)[:-3] + f"_{os.getpid()}_{_W['n']}")
         fn = getattr(_W['corpus'][path], prog['entry'])
         src = None
     else:
         tmp = _W['tmp'] or tempfile.mkdtemp(prefix='fpyverif_xf_', dir='/var/tmp')
         _W['tmp'] = tmp
-        path = os.path.join(tmp, f"{prog['entry']}_{os.getpid()}.py")
+        _W['n'] = _W.get('n', 0) + 1
+        path = os.path.join(tmp, f"{prog['entry']}_{os.getpid()}_{_W['n']}.py")
         with open(path, 'w') as fh: fh.write(prog['src'])
-        mod = load_module(path, f"fpyverif_{prog['entry']}_{os.getpid()}")
+        mod = load_module(path, f"fpyverif_{prog['entry']}_{os.getpid()}_{_W['n']}")
         fn = getattr(mod, prog['entry'])
         src = prog['src']
     return fn, src
 
 def run_one(task):
     """one program, all its recipes and inputs; returns a picklable summary (never raises)"""
+    tr = os.environ.get('VERIF_XTRACE')
     for attempt in (0, 1):
         try:
-            return _run_one(task)
+            if tr:
+                with open(tr, 'a') as fh: fh.write(f'start {task[0]["label"]} {os.getpid()} {time.time():.0f}\n')
+            r = _run_one(task)
+            if tr:
+                with open(tr, 'a') as fh: fh.write(f'end {task[0]["label"]} {os.getpid()} {time.time():.0f}\n')
+            return r
         except TimeoutError:
             continue     # a stray alarm outside `observe`: run the program again
         except BaseException as e:
@@ -542,6 +595,39 @@ def _run_one(task):
         return base[k]
     seen_xf = {}
     fn_text = describe(fn)
+    cls = opts.get('classify')
+    def run_classify(d, f, x):
+        if not cls: return None
+        try: return cls(d, f, x)
+        except Exception as e:
+            out['notes'].append(f'classifier failed: {e!r}'); return None
+    def violation_dict(rname, akey, cs, want, got, wpost, gpost, xtext):
+        return {'program': prog['label'], 'entry': prog['entry'], 'pre': prog.get('pre'), 'strategy': rname, 'args': akey, 'ctx': cs,
+                'original_result': want, 'transformed_result': got, 'original_lists_after': wpost, 'transformed_lists_after': gpost,
+                'original': src or fn_text, 'program_under_test': fn_text if (prog.get('pre') or src is None) else None,
+                'corpus_file': prog.get('corpus_file'), 'transformed': xtext, 'axes': prog.get('axes'), 'finding': None}
+    state = {'fn': fn, 'snap': snapshot(fn)}
+    def check_inputs_intact(rname):
+        """a strategy must leave its input (the function and every helper it calls) as it found it"""
+        nonlocal fn, fn_text
+        changed = [n for (f, n, t) in state['snap'] if describe(f) != t]
+        if not changed: return False
+        count('violation:input-mutated')
+        f0, n0, t0 = next(x for x in state['snap'] if x[1] == changed[0])
+        akey, args = inputs[0] if inputs else ('()', ())
+        got = observe(fn, args, None)[0] if inputs else '?'
+        d = violation_dict(rname, akey, None, 'input program text before the call:\n' + t0, 'after the call:\n' + describe(f0) + f'\n(the original now gives {got[:120]})', '', '', '<the strategy edited its INPUT in place>')
+        d['finding'] = run_classify(d, fn, None)
+        out['violations'].append((f'{rname}: the strategy changed its input: function `{changed[0]}` reads differently after the call', d))
+        # continue with a pristine copy of the program
+        prog2 = dict(prog); prog2['entry_suffix'] = f'_r{len(out["violations"])}'
+        try:
+            f1, _ = _load_prog(prog, fresh=True)
+            if prog.get('pre'): f1 = make_recipe(prog['pre'])(f1)
+            fn = f1; fn_text = describe(fn); state['snap'] = snapshot(fn); base.clear()
+        except Exception:
+            pass
+        return True
     lines, meta = [], []
     budget = opts.get('prog_budget', 90)
     for rname in recipes:
@@ -560,8 +646,20 @@ def _run_one(task):
             continue
         except BaseException as e:   # the strategy declined / does not apply
             count(f'declined:{short}:{type(e).__name__}')
+            if isinstance(e, CRASHES) or type(e).__name__ == 'FPySyntaxError':    # ... or it produced an ill-formed program
+                # an internal error is not a refusal: the original returns, the transformation produces nothing
+                k0 = next((k for k in base if base[k][0].startswith('ok')), None)
+                if k0 is None and inputs:
+                    baseline(inputs[0][0], inputs[0][1], None, None); k0 = next((k for k in base if base[k][0].startswith('ok')), None)
+                if k0 is not None:
+                    d = violation_dict(rname, k0[0], k0[1], base[k0][0], f'strategy raised {type(e).__name__}: {str(e)[:200]}', base[k0][1], '', '<none: the strategy crashed>')
+                    d['finding'] = run_classify(d, fn, None)
+                    out['violations'].append((f'{rname}: the strategy raised {type(e).__name__} (an internal error, not a refusal) on a program that returns', d))
+                    count('violation:crash:' + short)
+            if check_inputs_intact(rname): continue
             continue
         count('applied:' + short)
+        if check_inputs_intact(rname): continue
         try:
             changed = not xf.ast.is_equiv(fn.ast)
         except Exception:
@@ -614,14 +712,8 @@ def _run_one(task):
                     if bad and got.startswith('err') and error_allowed(rcp, prog, args, got):
                         count('precondition-error:' + short); bad = False
                     if bad:
-                        d = {'program': prog['label'], 'entry': prog['entry'], 'pre': prog.get('pre'), 'strategy': rname, 'args': akey, 'ctx': cs,
-                             'original_result': want, 'transformed_result': got, 'original_lists_after': wpost, 'transformed_lists_after': gpost,
-                             'original': src or fn_text, 'program_under_test': fn_text if (prog.get('pre') or src is None) else None,
-                             'corpus_file': prog.get('corpus_file'), 'transformed': describe(xf), 'axes': prog.get('axes'), 'finding': None}
-                        cls = opts.get('classify')
-                        if cls:
-                            try: d['finding'] = cls(d, fn, xf)
-                            except Exception as e: out['notes'].append(f'classifier failed: {e!r}')
+                        d = violation_dict(rname, akey, cs, want, got, wpost, gpost, describe(xf))
+                        d['finding'] = run_classify(d, fn, xf)
                         what = f'{rname}: original returns {want[:80]} but the transformed program gives {got[:80]}'
                         if got == want: what = f'{rname}: same value but the list arguments end as {gpost[:80]} instead of {wpost[:80]}'
                         out['violations'].append((what, d))
@@ -646,24 +738,29 @@ def _run_one(task):
                 if 'OutOfFuel' in m:
                     count('model-out-of-fuel'); continue
                 if m != got and not (m == 'err Unbound' and got in ('err KeyError', 'err Unbound', 'err NameError')):   # the interpreter reports an unbound name as KeyError
+                    # (the report keeps the LAST 3000 characters: the verdict goes last, the bulky parts first and clipped)
                     out['broken'].append(('correspondence', f"{opts.get('prop')}.eval-transformed",
-                                          f"program={prog['label']} strategy={rname}\n{describe(xf)}\nargs={akey} ctx={cs}\nimpl ={got}\nmodel={m}\nline={line}"))
+                                          f"line={line[:600]}...\n{describe(xf)[:1400]}\nprogram={prog['label']} strategy={rname}\nargs={akey[:300]} ctx={cs}\nimpl ={got[:400]}\nmodel={m[:400]}"))
         except Exception as e:
             out['broken'].append(('harness', 'driver', repr(e)[:500]))
     count('wall-ms', int((time.time() - t_start) * 1000)); count('cpu-ms', int((time.process_time() - c_start) * 1000))
     return out
 
+LOOPY = ('unroll', 'ForUnroll', 'WhileUnroll', 'split', 'SplitLoop', 'fwd', 'seq(unroll', 'seq(split', 'elim_iter', 'repeat(unroll', 'repeat(split')
+
 def select_inputs(inputs, rname, opts):
-    """quick tier: loop-restructuring recipes see every designed length; the others a spread"""
+    """quick tier: loop-restructuring recipes see (almost) every designed length; the others a spread"""
     cap = opts.get('inputs_cap')
     if cap is None or len(inputs) <= cap: return inputs
-    if rname.startswith(('unroll', 'ForUnroll', 'WhileUnroll', 'split', 'SplitLoop', 'fwd', 'seq(unroll', 'seq(split')): return inputs
     h = sum(map(ord, rname))
+    if rname.startswith(LOOPY):
+        drop = set(opts.get('loop_inputs_drop') or ())
+        if not drop: return inputs
+        # one of the dropped inputs comes back per recipe, so that over the recipes of a program every input is used
+        keep_back = sorted(drop)[h % len(drop)]
+        return [x for i, x in enumerate(inputs) if i not in drop or i == keep_back]
     idx = sorted({(h + i * 3) % len(inputs) for i in range(cap)} | {len(inputs) - 1, 2 % len(inputs)})
-    return [inputs[i] for i in idx]
-
-def _worker_init():
-    signal.signal(signal.SIGINT, signal.SIG_IGN)
+    return [inputs[i] for i in idx[:cap + 1]]
 
 # ====================================================================== driver of a whole run
 def corpus_progs(corpus_file, R, n_random=4, lengths=None, ctxs=(None,)):
@@ -680,6 +777,60 @@ def corpus_progs(corpus_file, R, n_random=4, lengths=None, ctxs=(None,)):
                     'ctxs': (m.get('ctxs') or list(ctxs)) if f.ast.ctx is None else [None], 'pinned': f.ast.ctx is not None, 'axes': None, 'pre': None, 'helpers': []})
     return out
 
+_TASKS = []
+
+def _pool_worker(tq, rq):
+    signal.signal(signal.SIGINT, signal.SIG_IGN)
+    while True:
+        i = tq.get()
+        if i is None: break
+        rq.put(('start', i, os.getpid()))
+        rq.put(('done', i, run_one(_TASKS[i])))
+
+def run_pool(tasks, nproc, deadline, rep):
+    """fork workers over the tasks; a worker that dies (the interpreter's GMP backend aborts the process on an absurd precision)
+    loses only the program it was running, which is counted, and is replaced"""
+    global _TASKS
+    _TASKS = tasks
+    ctx = mp.get_context('fork')
+    tq, rq = ctx.Queue(), ctx.Queue()
+    for i in range(len(tasks)): tq.put(i)
+    for _ in range(nproc): tq.put(None)
+    procs = {}
+    def spawn():
+        p = ctx.Process(target=_pool_worker, args=(tq, rq), daemon=True); p.start(); procs[p.pid] = p
+    for _ in range(nproc): spawn()
+    running, results, finished = {}, [], 0      # pid -> task index
+    import queue as _q
+    while finished < len(tasks):
+        if time.time() > deadline:
+            rep.notes.append(f'time budget reached after {finished} of {len(tasks)} programs; the rest were not run')
+            rep.count('budget-cut-programs', len(tasks) - finished); break
+        try:
+            kind, i, payload = rq.get(timeout=1.0)
+            if kind == 'start': running[payload] = i
+            else:
+                results.append(payload); finished += 1
+                for pid, j in list(running.items()):
+                    if j == i: del running[pid]
+            continue
+        except _q.Empty:
+            pass
+        for pid, p in list(procs.items()):
+            if not p.is_alive():
+                del procs[pid]
+                if pid in running:
+                    i = running.pop(pid); finished += 1
+                    rep.count('worker-died'); rep.count('worker-died:' + tasks[i][0]['label'].split(':')[0])
+                    if len(rep.notes) < 12: rep.notes.append(f"the worker running {tasks[i][0]['label']} died (exit code {p.exitcode}); the program is skipped")
+                    spawn()
+        if not procs and finished < len(tasks):
+            spawn()
+    for p in procs.values():
+        if p.is_alive(): p.terminate()
+    _TASKS = []
+    return results
+
 def run_xforms(rep, tier, seed, prop, progs, recipes_for, classify=None, opts=None):
     """progs: list of program dicts; recipes_for(prog, R) -> list of recipe strings"""
     opts = dict(opts or {})
@@ -692,19 +843,7 @@ def run_xforms(rep, tier, seed, prop, progs, recipes_for, classify=None, opts=No
         o = dict(opts); o['want_samples'] = i % 97 == 0
         tasks.append((p, rs, o))
     deadline = time.time() + opts.get('deadline_s', 10**9)
-    results = []
-    ctx = mp.get_context('fork')
-    nproc = min(NPROC, max(1, len(tasks)))
-    # longest programs first would need a cost model; interleave instead (chunksize 1 keeps the pool balanced)
-    with ctx.Pool(nproc, initializer=_worker_init) as pool:
-        it = pool.imap_unordered(run_one, tasks, chunksize=1)
-        for k in range(len(tasks)):
-            try:
-                results.append(it.next(timeout=max(5, deadline - time.time())))
-            except mp.TimeoutError:
-                rep.notes.append(f'time budget reached after {len(results)} of {len(tasks)} programs; the rest were not run')
-                rep.count('budget-cut-programs', len(tasks) - len(results))
-                pool.terminate(); break
+    results = run_pool(tasks, min(NPROC, max(1, len(tasks))), deadline, rep)
     shutil.rmtree(tmpdir, ignore_errors=True)
     results.sort(key=lambda r: r['label'])
     hangs = rep.cov.setdefault('strategy_hangs', [])
